@@ -230,7 +230,7 @@ class ArbiterPriority(Arbiter):
                 impmax = imp
                 truthmax = truth
 
-        if inputmax:
+        if inputmax is not None:
             #self.output.updateJointly(value = inputmax.value, truth = truthmax, stamp = stamp)
             self.output.value = inputmax.value
             self.output.truth = truthmax
@@ -283,7 +283,7 @@ class ArbiterTrusted(Arbiter):
                     impmax = imp
                     inputmax = input
 
-        if inputmax:
+        if inputmax is not None:
             #self.output.updateJointly(value = inputmax.value, truth = truthmax, stamp = stamp)
             self.output.value = inputmax.value
             self.output.truth = truthmax
